@@ -438,7 +438,10 @@ class Mesh:
 
             marked_space.sort(key=lambda elem: elem.level_space)
             for elem in marked_space:
-                assert not elem.children
+                # The time refinement above may already have bisected this
+                # element (conformity closure); its children are classified
+                # again in the next sweep.
+                if elem.children: continue
                 self.refine_space(elem)
         print('Grading added {} elements'.format(len(self.leaf_elements) - N))
 
